@@ -518,7 +518,16 @@ def explore_ctx(ctx, col, concat_len):
         labels = [["subset", i] for i in range(1 << k)] + [["invert"], ["unique"]]
         for label in labels:
             for v, _ in run(label, [node]):
-                yield label, Node(v, [label, [node.recipe]], view_key(v))
+                child = Node(v, [label, [node.recipe]], view_key(v))
+                yield label, child
+                # Histories, not only states: a view with this selection may have been reached before by a shorter recipe, and
+                # the search would then never look at THIS object again (anything it remembers about how it was made - its
+                # outer view, a cache - is not part of the state key).  Every freshly produced view is therefore taken one
+                # step further here, whatever the search does with it: complement, materialisation, attributes.
+                run(["invert"], [child])
+                run(["to_screen"], [child])
+                for sig, msg in check_attributes(ctx, child.obj, bits_of(child.obj.selection_vector), kind="attributes-of-nested-view"):
+                    col.violation(sig, f"parent {ctx.pname} rows {rows_of_bits(ctx.sub)}: {msg}", dict(base, op=["attributes"], operands=[child.recipe]))
         run(["to_screen"], [node])
         # equal-content twin parent: must refuse
         bits = node.key[2]
